@@ -13,6 +13,7 @@ func init() {
 			ruleODBank(c, findReadFile(c.P))
 			ruleBTPure(c)
 			ruleSGDet(c)
+			ruleALBump(c)
 			c.Note("not decided: that each operation produces the result it would produce alone (value-level); races inside the standard library, snappy, json")
 		})
 }
